@@ -257,10 +257,21 @@ def oracle_profile(chk, which, p, o):
             scale = abs(o["hourly_rej_month"][k12]) + abs(o["hourly_ext_month"][k12])
             n += 1
             tot += e
-            if abs(e - net) > 1e-7 * scale + 1e-9:
-                chk.violation("hybrid-profile", p, {"month": m, "energy_kWh": e, "net_kWh": net, "peak_days": [o["daycl"][k12 + 1], o["dayhl"][k12 + 1]]},
-                              "month energy of the hybrid sequence = net hourly ground load of that month (rejection - extraction)")
-                return n
+            if not (abs(e - net) <= 1e-7 * scale + 1e-9):
+                # the listed defect (shared with C07): a peak of this month far outside (0, 48 h] because the two-day window holds a larger
+                # load of the previous month within the 0.1 kW tolerance; the pulse then reaches beyond the month and its energy is misplaced
+                sig = None
+                if "rej" in o:
+                    for series, pk, day, dur in ((o["rej"], o["hourly_rej_peak"][k12], o["hourly_rej_peak_day"][k12], o["dcl"][k12 + 1]),
+                                                 (o["ext"], o["hourly_ext_peak"][k12], o["hourly_ext_peak_day"][k12], o["dhl"][k12 + 1])):
+                        if pk > 0 and dur > 48 and pk < max(two_day_window(series, k12, day)) < pk + 0.1:
+                            sig = SIG_TOL
+                chk.violation("hybrid-profile", p, {"month": m, "energy_kWh": e, "net_kWh": net, "peak_days": [o["daycl"][k12 + 1], o["dayhl"][k12 + 1]],
+                                                    "durations_h": [o["dcl"][k12 + 1], o["dhl"][k12 + 1]]},
+                              "month energy of the hybrid sequence = net hourly ground load of that month (rejection - extraction)", signature=sig)
+                if sig is None:
+                    return n
+                return n        # later months of this profile are shifted by the misplaced pulse: judged no further
         if months % 12 == 0:
             annual = o["rej_sum"] - o["ext_sum"]
             if abs(tot - annual * months / 12) > 1e-6 * (o["rej_sum"] + o["ext_sum"]) + 1e-9:
